@@ -47,6 +47,11 @@ impl<K: Clone + Eq + Hash, V> LruTimeCache<K, V> {
 
         match self.map.raw_entry_mut().from_key(key) {
             hashlink::linked_hash_map::RawEntryMut::Occupied(mut occupied) => {
+                // An expired entry is never handed out (nor refreshed); it is purged and
+                // reported by `remove_expired_values`.
+                if occupied.get().1 + self.ttl < now {
+                    return None;
+                }
                 occupied.get_mut().1 = now;
                 occupied.to_back();
                 Some(&mut occupied.into_mut().0)
